@@ -180,6 +180,14 @@ func checkC15(p *Prog, r *Report) {
 			r.Fail(kp("STATE", "handler-writes-process-memory:"+a.Loc), "a failed transaction leaves nothing behind: handlers change state only through the transaction's store branch", p.Pos(a.Instr.Pos()),
 				fmt.Sprintf("%s is written on a handler's call tree (%s; reached via %s) and read there (%s): the write is not part of the store branch that is discarded when a message of the transaction fails, so a failed transaction changes what later messages see and store", a.Loc, describeAccess(p, a), reach.Chain(a.Fn), describeAccess(p, rd)))
 		}
+		// … and no object implemented outside the module that the keeper holds is used without a Context: a store of the keeper's
+		// own (mem.NewStore(), a map behind an SDK type) is not part of the transaction's store branch either
+		bad, _ := contextFreeForeignCalls(p, scopeFns)
+		for _, fc := range bad {
+			nW++
+			r.Fail(kp("STATE", "handler-uses-context-free-object:"+fc.Loc+"→"+fc.Name+"@"+FuncName(fc.Fn)), "a failed transaction leaves nothing behind: handlers change state only through the transaction's store branch", p.Pos(fc.Instr.Pos()),
+				fmt.Sprintf("%s calls %s on %s (a %s held by a long-lived struct) without a Context: whatever it reads or writes there is outside the store branch that is discarded when a message of the transaction fails — and is changed by simulations, too", FuncName(fc.Fn), fc.Name, fc.Loc, fc.Recv))
+		}
 		if nW == 0 {
 			r.OK(kp("STATE", "handler-writes-process-memory#none"), "a failed transaction leaves nothing behind: handlers change state only through the transaction's store branch", "x/*",
 				fmt.Sprintf("%d module functions on the handlers' call trees, no package-level variable or long-lived field is both written and read there", len(scopeFns)))
